@@ -24,7 +24,7 @@ struct Obj { virtual ~Obj() {} };   // common base so that the graveyard can rel
 struct TimerCb : public Server::Timer::ICallback, public Obj { H* h; int slot; bool alive; long long start, interval, nextDue; long k; long long slowMs = 0; Server::Timer* handle; void onActivated() override; };
 struct ClientCb : public Server::Client::ICallback, public Obj {
   H* h; int slot; bool alive; bool maybeFailed = false; Server::Client* cl; int peerFd; Socket* peerSock; bool suspended; bool tcp; bool peerClosed; bool closedSeen; bool failedIo;
-  long long toServer, serverGot; long long backlogHint; int fd = -1; bool backlog = false;
+  long long toServer, serverGot; long long backlogHint; int fd = -1; bool backlog = false; bool stalled = false;
   void onRead() override; void onWrite() override; void onClosed() override;
 };
 struct ListenerCb : public Server::Listener::ICallback, public Obj { H* h; int slot; bool alive; Server::Listener* handle; int port; int pendingConnects; bool estEver = false; Server::Client::ICallback* onAccepted(Server::Client& client, uint32 ip, uint16 port) override; };
@@ -162,6 +162,16 @@ struct H {
         if (c->suspended && c->backlog) ctx->label("backlog_on_suspended_client");
       }
     }
+    else if (nm == "stall" || nm == "r_stall") {
+      // a write far beyond what the system's buffer holds, to a peer that does not read: the connection is really not writable any
+      // more, the client stays registered for reading and writing - and what the peer sends must still be delivered
+      ClientCb* c = client[a % 4];
+      if (c && !c->failedIo && !c->tcp && !c->peerClosed && !c->stalled) {
+        static unsigned char big[512 * 1024]; { LedgerPause lp; srv::st().faults.clear(); srv::st().nextFault = 0; }
+        clientWrite(c, big, sizeof big);
+        if (c->backlog) { c->stalled = true; ctx->label("connection_not_writable"); }
+      }
+    }
     else if (nm == "failrm" || nm == "r_failrm") {
       // several clients fail in the same moment and one of them is removed before its onClosed is delivered
       int failed[4]; int n = 0; for (int i = 0; i < 4; ++i) { ClientCb* c = client[i]; if (c && !c->failedIo && !c->peerClosed && i != selfClient) { peerClose(i); unsigned char z[8] = {1, 2, 3, 4, 5, 6, 7, 8}; c->cl->write(z, 8); if (!c->cl->write(z, 8)) { c->failedIo = true; failed[n++] = i; } } }
@@ -207,7 +217,7 @@ struct H {
       ClientCb* c = client[i];
       if (!c->suspended && !c->failedIo && c->toServer > c->serverGot) { char d[160]; snprintf(d, sizeof d, "the loop goes idle although client %d is readable (%lld unread bytes) and registered for reading", i, c->toServer - c->serverGot); fail("dispatch:readable-not-dispatched", d); }
       if (!c->suspended && c->peerClosed && !c->closedSeen && !c->failedIo && c->toServer == c->serverGot) { fail("dispatch:peer-close-not-dispatched", "the loop goes idle although the peer of client " + std::to_string(i) + " has closed and the client is registered for reading"); }
-      if (c->backlog && !c->failedIo && !c->peerClosed) fail("dispatch:backlog-not-dispatched", "the loop goes idle although client " + std::to_string(i) + " is writable and has a send backlog (registered for writing)");
+      if (c->backlog && !c->stalled && !c->failedIo && !c->peerClosed) fail("dispatch:backlog-not-dispatched", "the loop goes idle although client " + std::to_string(i) + " is writable and has a send backlog (registered for writing)");
       if (c->failedIo && !c->closedSeen) fail("dispatch:onClosed-missing", "a read or write of client " + std::to_string(i) + " failed but the loop goes idle without onClosed");
     }
   }
@@ -250,7 +260,7 @@ void ClientCb::onWrite() {
   ++h->callbacks; if (!alive) h->fail("removed:client-callback", "onWrite after remove() returned");
   if (!tcp && !backlog) h->fail("dispatch:onWrite-without-backlog", "onWrite delivered to client " + std::to_string(slot) + " which had no send backlog (it was not registered for writing)");
   if (!tcp && cl->getSendBufferSize() != 0) h->fail("dispatch:onWrite-before-drained", "onWrite delivered while the send backlog is not empty");
-  backlog = false; h->ctx->label(suspended ? "onWrite_while_suspended" : "onWrite"); int me = slot; H* hh = h; hh->react(-1, me);
+  backlog = false; stalled = false; h->ctx->label(suspended ? "onWrite_while_suspended" : "onWrite"); int me = slot; H* hh = h; hh->react(-1, me);
 }
 void ClientCb::onClosed() {
   ++h->callbacks; if (h->ctx->verbose) fprintf(stderr, "[%lld] client %d onClosed (alive %d)\n", h->now(), slot, (int)alive); if (!alive) h->fail("removed:client-callback", "onClosed after remove() returned");
@@ -294,13 +304,13 @@ void pbt_warmup() {}
 
 void pbt_generate(Rng& r, int size, Case& c) {
   int n = 3 + (int)r.below((uint64_t)size + 1), nr = (int)r.below((uint64_t)size + 2), np = (int)r.below(12);
-  static const char* tops[] = {"timer", "rmtimer", "client", "rmclient", "peerwrite", "peerclose", "suspend", "resume", "listener", "rmlistener", "incoming", "establish", "rmest", "interrupt", "cwrite", "run", "failall", "bigwrite", "failrm"};
-  static const int wt[] = {22, 8, 10, 5, 12, 3, 3, 3, 4, 2, 5, 4, 2, 3, 4, 16, 3, 6, 3};
+  static const char* tops[] = {"timer", "rmtimer", "client", "rmclient", "peerwrite", "peerclose", "suspend", "resume", "listener", "rmlistener", "incoming", "establish", "rmest", "interrupt", "cwrite", "run", "failall", "bigwrite", "failrm", "stall"};
+  static const int wt[] = {22, 8, 10, 5, 12, 3, 3, 3, 4, 2, 5, 4, 2, 3, 4, 16, 3, 6, 3, 2};
   static const char* reacts[] = {"r_none", "r_timer", "r_rmtimer", "r_client", "r_rmclient", "r_peerwrite", "r_peerclose", "r_suspend", "r_resume", "r_rmlistener", "r_incoming", "r_rmest", "r_interrupt", "r_cwrite", "r_bigwrite", "r_failrm", "r_rmnew"};
   static const int wr[] = {10, 14, 22, 4, 12, 8, 3, 4, 4, 3, 3, 3, 4, 4, 6, 2, 5};
   bool burst = r.chance(40);   // many timers created in the same millisecond with equal intervals
   for (int k = 0; k < n; ++k) {
-    int o = r.weighted(wt, 19);
+    int o = r.weighted(wt, 20);
     long a = (long)r.below(64), b = (long)r.below(64);
     if (burst && o == 0) b = (long)(r.chance(70) ? 2 : r.below(7));
     c.add(tops[o], a, b, (long)r.below(o == 17 ? 1024 : 40));
